@@ -12,6 +12,9 @@ REPO = os.environ.get("VERIF_REPO", "/repo")
 VX = os.path.join(VERIF, "vx", "target", "release", "vx")
 
 
+AUTO = {}   # src rel -> set of item names pulled in automatically (helpers the extracted text calls)
+
+
 class Undecided(Exception):
     """Lost anchor / unsupported construct / tool failure: exit 2, never a VIOLATION."""
 
@@ -243,6 +246,8 @@ class Unit:
         self.sites = {}
         self.implicit_tags = {}
         self.stubs = []
+        self.auto_done = set()
+        self.auto_included = []
         self.canary_names = []
         self.e7 = False
         self.strict_specs = set()
@@ -253,6 +258,45 @@ class Unit:
 
     def orig(self, src, s, e):
         self.pieces.append(Piece(src.text(s, e), src=src, start=s, fn=self._fnctx))
+
+    def auto_here(self, src, modname):
+        """Emit helper items of `src` that the extracted functions turned out to reference but the
+        unit does not list (found by name after a first Verus run).  consts/types: verbatim.
+        Free fns without `self`: verbatim body plus a *reflection contract*: the same body text is
+        emitted once more as a spec fn and the exec fn ensures `r == <name>__spec(args)`; Verus
+        checks the exec body against it, so this is the helper's strongest postcondition obtained
+        mechanically (works only for pure, loop-free helpers; otherwise rustc/Verus rejects it and
+        the run is undecided)."""
+        for name in sorted(AUTO.get(src.rel, ())):
+            hits = [it for it in src._walk(src.index["items"]) if it.get("name") == name and it["kind"] in ("fn", "const", "type", "struct", "enum")
+                    and not it.get("qual", "").startswith("tests::") and "::" not in it.get("qual", "")]
+            if len(hits) != 1:
+                raise Undecided(f"auto-include: {name} in {src.rel} resolves to {len(hits)} items")
+            it = hits[0]
+            if (src.rel, name) in self.auto_done:
+                continue
+            self.auto_done.add((src.rel, name))
+            if it["kind"] != "fn":
+                self.item(src, it["qual"], it["kind"])
+                self.auto_included.append(f"src/{src.rel}: {it['kind']} {name} (verbatim)")
+                continue
+            sig = it["sig"]
+            if any(i.get("self") for i in sig["inputs"]) or not sig["output"] or sig["async"]:
+                raise Undecided(f"auto-include: helper {name} in {src.rel} is not a pure free fn; it needs a contract of its own")
+            args = ", ".join(src.text(*i["pat"]) for i in sig["inputs"])
+            params = src.text(sig["paren_open"], sig["paren_close"] + 1)
+            gen = src.text(*sig["generics"]) if sig["generics"] else ""
+            ret = src.text(*sig["output"])
+            body = src.text(*it["body"])
+            vis = "pub open " if src.text(it["start"], sig["fn"]).strip().startswith("pub") else ""
+            self.raw(f"{vis}spec fn {name}__spec{gen}{params} -> {ret} {body}\n")
+            key = f"{modname}::{name}"
+            sp_ = FnSpec(key)
+            sp_.returns = "r"
+            sp_.ensures = [Clause("ensures", "reflects_its_own_body", [], f"r == {name}__spec({args})", "auto")]
+            self.specs[key] = sp_
+            self.fn(src, it, key)
+            self.auto_included.append(f"src/{src.rel}: fn {name} (reflection contract)")
 
     def canary_decls(self):
         self.pieces.append(Piece("", tag="__canary_decls__"))
